@@ -145,7 +145,7 @@ type Result struct {
 	Exhaustive  bool
 	Violations  []Violation
 	NViolations int64
-	Nontrivial  map[string]struct{}
+	Nontrivial  map[uint64]struct{} // FNV-64 hashes of the keys of distinct non-trivial cases
 	Outcomes    map[string]int64
 	Notes       map[string]int64
 	Samples     []map[string]any
@@ -231,7 +231,7 @@ func (e *Explorer) Explore() *Result {
 	if e.MaxSamples == 0 {
 		e.MaxSamples = 6
 	}
-	res := &Result{Bound: e.Bound, Exhaustive: true, Nontrivial: map[string]struct{}{}, Outcomes: map[string]int64{}, Notes: map[string]int64{}}
+	res := &Result{Bound: e.Bound, Exhaustive: true, Nontrivial: map[uint64]struct{}{}, Outcomes: map[string]int64{}, Notes: map[string]int64{}}
 	var mu sync.Mutex
 	var shared []task
 	var inflight int64
@@ -258,7 +258,7 @@ func (e *Explorer) Explore() *Result {
 		} else {
 			local.Executions += int64(1 + c.extraEvals)
 			for _, k := range c.nontrivial {
-				local.Nontrivial[k] = struct{}{}
+				local.Nontrivial[HashKey(k)] = struct{}{}
 			}
 			if c.outcome != "" {
 				local.Outcomes[c.outcome]++
@@ -328,7 +328,7 @@ func (e *Explorer) Explore() *Result {
 	var wg sync.WaitGroup
 	locals := make([]*Result, e.Workers)
 	for w := 0; w < e.Workers; w++ {
-		local := &Result{Nontrivial: map[string]struct{}{}, Outcomes: map[string]int64{}, Notes: map[string]int64{}}
+		local := &Result{Nontrivial: map[uint64]struct{}{}, Outcomes: map[string]int64{}, Notes: map[string]int64{}}
 		locals[w] = local
 		wg.Add(1)
 		go func() {
@@ -402,4 +402,15 @@ func deviations(ch []int) int {
 		}
 	}
 	return n
+}
+
+// HashKey is the 64-bit FNV-1a hash under which a non-trivial case key is counted (keeping
+// tens of millions of key strings would dominate the memory of a thorough run).
+func HashKey(k string) uint64 {
+	h := uint64(14695981039346656037)
+	for i := 0; i < len(k); i++ {
+		h ^= uint64(k[i])
+		h *= 1099511628211
+	}
+	return h
 }
